@@ -2,6 +2,7 @@ package tex
 
 import (
 	"bytes"
+	"fmt"
 	"io"
 
 	symx "github.com/pinealctx/neptune/zzsymx"
@@ -52,6 +53,7 @@ type verifSrc struct {
 	data  []byte
 	off   int
 	fail  bool
+	err   error // the error a failing source ends with (default io.ErrUnexpectedEOF)
 	tag   string
 	calls int
 	eager bool // the final error comes together with the last bytes, as io.Reader allows
@@ -60,7 +62,7 @@ type verifSrc struct {
 func (r *verifSrc) Read(p []byte) (int, error) {
 	if r.off >= len(r.data) {
 		if r.fail {
-			return 0, io.ErrUnexpectedEOF
+			return 0, r.failure()
 		}
 		return 0, io.EOF
 	}
@@ -77,11 +79,30 @@ func (r *verifSrc) Read(p []byte) (int, error) {
 	r.off += n
 	if r.eager && r.off >= len(r.data) {
 		if r.fail {
-			return n, io.ErrUnexpectedEOF
+			return n, r.failure()
 		}
 		return n, io.EOF
 	}
 	return n, nil
+}
+
+func (r *verifSrc) failure() error {
+	if r.err != nil {
+		return r.err
+	}
+	return io.ErrUnexpectedEOF
+}
+
+// verifSrcErr: the error value a failing source ends with: io.ErrUnexpectedEOF, an error that wraps
+// io.EOF without being it (only the bare io.EOF means a clean end), or a fresh error.
+func verifSrcErr() error {
+	switch symx.Concrete(symx.Int("srcError"), 0, 2) {
+	case 1:
+		return fmt.Errorf("stream aborted: %w", io.EOF)
+	case 2:
+		return fmt.Errorf("connection reset")
+	}
+	return io.ErrUnexpectedEOF
 }
 
 // writer accepting a (replayed) short count and error
@@ -243,10 +264,14 @@ func VerifH_BufferDifferential() {
 			data := symx.Bytes("src", verifSize("srcSize"))
 			fail := symx.Bool("srcFails")
 			eager := symx.Bool("srcErrorWithLastBytes")
-			r1 := &verifSrc{data: data, fail: fail, tag: "chunk", eager: eager}
+			var ferr error
+			if fail {
+				ferr = verifSrcErr()
+			}
+			r1 := &verifSrc{data: data, fail: fail, err: ferr, tag: "chunk", eager: eager}
 			n1, e1 := t.ReadFrom(r1)
 			// the second reader replays the same fragmentation is unnecessary: ReadFrom's result must not depend on it
-			r2 := &verifSrc{data: data, fail: fail, eager: eager}
+			r2 := &verifSrc{data: data, fail: fail, err: ferr, eager: eager}
 			n2, e2 := s.ReadFrom(r2)
 			symx.Assert(n1 == n2, "ReadFrom count")
 			verifErrSame(e1, e2, "ReadFrom")
